@@ -12,17 +12,20 @@ Theorems hold for every number of processes and every schedule:
   all times its initial bytes followed by *whole* framed records, in the order of their appends.
   Hence (C05) every reader decodes exactly those records: no partial record, no splice, no lost
   append; the index behaves like the serial execution of the appends in that order.
-* `conc_content_valid_partial` — the content store stays valid under every interleaving of
-  operations that do not publish content (lookups, reads, listings, index insertions, removals).
-  For concurrent *publishing* writers the same invariant needs a rely/guarantee argument about each
-  writer's private temp file (fresh names, nobody else's calls aim at it); it is proved for a
-  single writer against every crash/fault (C03/C13) and validated for concurrent writers by the
-  multi-process stress leg — hence `_partial`.
+* `conc_content_valid` — the content store stays valid under EVERY interleaving of ANY NUMBER of
+  whole writers (open, feed chunks, commit / clean up: mapped or plain, keyed or by address, either
+  flavour) and quiet operations (index insertions, removals, `remove_hash`, `remove_fully`, `clear`,
+  link commits, every read-only operation).  Rely/guarantee proof in `Lemmas/Concurrent.lean`: temp
+  names are fresh forever, nobody but its owner ever creates or changes a regular file at a writer's
+  temp path (others may delete it), so at its publishing `rename` the source either still holds the
+  bytes whose digest is the target address or is gone and the rename fails.
+  (`conc_content_valid_nonpublishing`, the earlier non-publishing special case, is kept.)
 * `conc_confined` — under every interleaving every call stays inside the cache directory.
 -/
 import Cacache.Lemmas.Interleave
 import Cacache.Props.C05
 import Cacache.Lemmas.CodecLaws
+import Cacache.Lemmas.Concurrent
 
 namespace Cacache.C07
 open Prog
@@ -107,12 +110,49 @@ theorem conc_reads_whole_records (L : (codec cfg).Laws W) {α : Type} (q : Path)
 
 /-- Non-publishing calls keep the content store valid; so any interleaving of programs made of
 them does. -/
-theorem conc_content_valid_partial {α : Type} (ps : List (Prog α))
+theorem conc_content_valid_nonpublishing {α : Type} (ps : List (Prog α))
     (hp : ∀ p ∈ ps, AllCalls (Call.noPublish cache) p) (fs : FS)
     (hv : ContentValid cfg cache fs) (sched : List Nat) :
     ContentValid cfg cache (interleave env ps fs sched).2 :=
   (interleave_invariant env (Call.noPublish cache) (ContentValid cfg cache)
     (fun c fs hc hi => step_contentValid .ok (hc fs) hi) ps hp fs hv sched).1
+
+/-- **Concurrent publishing writers keep the content store valid — every schedule, any number
+of processes.**  Each process is a whole writer lifetime (`writeStream`: any flavour, keyed or by
+address, any options, any chunks) or a program all of whose calls are quiet (never create or change
+a regular file at a content address or inside `<cache>/tmp`; deleting is allowed).  For an
+arbitrary digest function. -/
+theorem conc_content_valid (ps : List (Prog (Res Integrity))) (hp : ∀ p ∈ ps, Proc cfg cache p)
+    (fs : FS) (hv : ContentValid cfg cache fs) (sched : List Nat) :
+    ContentValid cfg cache (interleave env ps fs sched).2 :=
+  conc_writers_content_valid cfg env cache ps hp fs hv sched
+
+/-- The same for processes of different result types (results discarded by `Prog.forget`). -/
+theorem conc_content_valid_any (ps : List (Prog Unit)) (hp : ∀ p ∈ ps, ProcU cfg cache p)
+    (fs : FS) (hv : ContentValid cfg cache fs) (sched : List Nat) :
+    ContentValid cfg cache (interleave env ps fs sched).2 :=
+  conc_writers_content_valid_any cfg env cache ps hp fs hv sched
+
+/-- The operations of the library are processes in that sense: whole writers, and — quiet —
+index insertion, removal by key, `remove_hash`, `remove_fully`, `clear`, lookups and reads. -/
+theorem library_ops_are_procs (fl : Flavour) (key : Bytes) (o : WriteOpts) (chunks : List Bytes)
+    (sri : Integrity) :
+    ProcU cfg cache (writeStream cfg cache fl (some key) o chunks).forget ∧
+    ProcU cfg cache (writeStream cfg cache fl none o chunks).forget ∧
+    ProcU cfg cache (insert cfg cache key o).forget ∧
+    ProcU cfg cache (delete cfg cache key).forget ∧
+    ProcU cfg cache (removeHash cache sri).forget ∧
+    ProcU cfg cache (removeFully cfg cache key).forget ∧
+    ProcU cfg cache (clear cache).forget ∧
+    ProcU cfg cache (find cfg cache key).forget ∧
+    ProcU cfg cache (read cfg cache key).forget ∧
+    ProcU cfg cache (readHash cfg cache sri).forget :=
+  ⟨.writer fl (some key) o chunks, .writer fl none o chunks,
+   .quiet _ (insert_quiet cfg cache key o), .quiet _ (delete_quiet cfg cache key),
+   .quiet _ (removeHash_quiet cache sri), .quiet _ (removeFully_quiet cfg cache key),
+   .quiet _ (clear_quiet cache), .quiet _ (readOnly_quiet cache (find_ro cfg cache key)),
+   .quiet _ (readOnly_quiet cache (read_ro cfg cache key)),
+   .quiet _ (readOnly_quiet cache (readHash_ro cfg cache sri))⟩
 
 /-- Index insertions / removals never publish content. -/
 theorem insert_noPublish (key : Bytes) (o : WriteOpts) :
